@@ -13,6 +13,9 @@ claimed = {
  "C01": dict(
    text="Bounded symbolic model checking of the real ring kernels from go/ssa: scalar reductions (MRed/BRed/MForm/IMForm/CRed + lazy forms) for all 64-bit inputs per modulus of a stated set; all 37 unrolled vector kernels (lane discipline on 16 lanes + lane semantics); forward/inverse NTT (N=16,32; thorough to 128) by stage-cut lemmas whose concrete stage matrices compose to the definition matrix; every obligation is an SMT query (unsat for all values inside the bound).",
    ref="DESIGN.md §6-C01", technique="SSA symbolic execution + SMT (LIA with wrap elimination / BV), stage-cut inductive lemmas for the NTT"),
+ "C02": dict(
+   text="Word-level bounded symbolic model checking of the real RNS code with a CRT ghost: one coefficient carries an arbitrary mathematical integer (symbolic Int), the code sees its residues. Ring.DivFloor/DivRoundByLastModulus{,Many}{,NTT}: every output limb equals the exact floored / rounded-half-up quotient (all levels, 0..L rescalings). BasisExtender.ModUpQtoP/PtoQ: output ≡ x + e·Q for one e in {-1,0,1}, e=0 below Q/4; ModDownQPtoQ{,NTT}/QPtoP: rounded quotient up to 1; Decomposer.DecomposeAndSplit: digit ≡ x mod its group, same value (up to one group modulus, bounded by it) on all other Q and P limbs; ring.MaskVec power-of-two digits recombine. The float64 correction term is modelled with a sound rounding-error bound; MRed and multSum enter through exact contracts discharged on the real functions for the same moduli; CRT is the single arithmetic axiom (vCRTLift, premises discharged). NTT-domain variants run with the transforms replaced by identity-up-to-documented-lazy-range stand-ins.",
+   ref="DESIGN.md §6-C02", technique="SSA symbolic execution + SMT (LIA/LRA with exact mod-q normalisation of specification terms, CRT ghost integer)"),
  "C03": dict(
    text="Algebraic slot model: the real key generator, encryptor (secret-key / public-key, with and without P, NTT and coefficient-domain parameter sets, every level) and decryptor are executed from SSA with every plaintext, key, mask and error coefficient a free element of Z_q (atom); Dec(Enc(pt))-pt must reduce to error/rounding atoms only, every coefficient must carry a fresh error atom, metadata must be copied, decryption under an independent key must keep the uniform mask. The final polynomial identities are decided by the SMT solver over free monomial variables. Numeric noise bounds / empirical sigma are outside (statistical).",
    ref="DESIGN.md §6-C03, §4.3", technique="SSA symbolic execution in the algebraic slot model (field elements over atoms, kernel contracts from C01) + SMT (LIA) on the normalised identities"),
